@@ -72,14 +72,18 @@ CLAIMS = {
    design='DESIGN.md §3 C14'),
  'C20': dict(
    level='model_checking',
-   text="Grant step only: RoomLockService::acquire_lock (an async fn without suspension point; its coroutine body is executed from MIR and must return Ready) from "
+   text="(a) Grant step: RoomLockService::acquire_lock (an async fn without suspension point; its coroutine body is executed from MIR and must return Ready) from "
         "an arbitrary state satisfying the representation invariant: 1-3 queued peers with 1-3 symbolic rooms each, 0-2 symbolic locked rooms, symbolic free slots >= 1, "
         "every send succeeding or failing symbolically. z3 shows: no panic (usize underflow), at most one grant, a granted room was free and becomes locked, "
         "locked + free slots is preserved, a room leaves a request only by grant or failed send, queue = keys of the request map without duplicates, no empty request "
-        "stays queued, and without a grant every still-requested room was locked. About 10% of the explored paths are replayed on the real async fn "
-        "(tokio current-thread runtime) and the whole final state is compared.",
-   note="The request/unlock handlers are inline in a spawned task (multi-state coroutine over mpsc::Receiver) and are outside; exclusivity and liveness across messages "
-        "and disconnection cleanup in peer_inbound_service are not claimed. The handlers' two call patterns are re-stated in the driver (driver code).",
+        "stays queued, and without a grant every still-requested room was locked. (b) Service loop: RoomLockService::start is executed from MIR, the task it spawns is "
+        "captured and polled with a scripted queue (13 scripts of 1-4 RequestLock / Unlock messages; peers, rooms, limit in {1,2} and receiver liveness symbolic): request "
+        "merging, unlock handling (rooms not held, double unlocks) and the grant loop are the real code from the initial state. A specification is folded over the observed "
+        "grants as formulas over the room alphabet and z3 shows: a room is never granted while held, never more rooms than the limit, only rooms the connection is "
+        "waiting for, and after every handled message no free slot coexists with a requested room nobody holds. Every service path and ~10% of the step paths are "
+        "replayed natively (real service task through request_locks / unlock; real async fn with full final-state comparison).",
+   note="Bounded scripts from the initial state (quick: up to 4 messages, thorough: up to 5); liveness only in the bounded safety form above; the release of held rooms "
+        "when a connection ends (peer_inbound_service) and fairness of the rotation are outside.",
    design='DESIGN.md §3 C20'),
  'C06': dict(
    level='model_checking',
